@@ -29,6 +29,8 @@ func init() {
 }
 
 const prelude = `oo := {v: 1, f: m{|x| "uf".p; x}, bad: m{"ub".p; raise ValueErr.new("vm")}, w: m{{v: 2}}, err1: m{1.try.{|n| raise TypeErr.new("captured")}.err}, kw: m{|a, k: 0| "uk".p; raise ValueErr.new("kbig") if k > 5; a + k}}
+n5 := 5.bear(oo)
+sa := "a".bear(oo)
 idf := {|x| "vc".p; x}
 ew := 1.try./(0).err
 ev := 5.try
@@ -90,7 +92,11 @@ func reducedAlphabetQuick() []step {
 		{Src: `.{|x| "s".p; raise TypeErr.new("m7")}`}, {Src: `.{|x| "s".p; 1 / 0}`}, {Src: ".^idf"}, {Src: ".bad", Obj: true}, {Src: ".v", Tag: "noncallable", Obj: true}}
 }
 
-var receivers = []string{"5", `"a"`, "[1, 2]", "oo", "nil", "ew"}
+// n5 / sa: children of a concrete int / str that carry oo's own methods (the wrapper reaches a property of the
+// value through the value's own indexing, which for ints and strs is not the plain property search)
+var receivers = []string{"5", `"a"`, "[1, 2]", "oo", "nil", "ew", "n5", "sa"}
+
+func hasOwnProps(recv string) bool { return recv == "oo" || recv == "n5" || recv == "sa" }
 
 type accessor struct {
 	Src string
@@ -272,7 +278,7 @@ func gen(thorough bool, emit func(tcase)) {
 			return
 		}
 		for _, s := range alpha {
-			if s.Obj && !(len(steps) == 0 && recv == "oo") && !(len(steps) > 0 && steps[len(steps)-1].Src == ".w") {
+			if s.Obj && !(len(steps) == 0 && hasOwnProps(recv)) && !(len(steps) > 0 && steps[len(steps)-1].Src == ".w") {
 				continue
 			}
 			rec(recv, append(steps, s), alpha, max)
@@ -299,7 +305,7 @@ func gen(thorough bool, emit func(tcase)) {
 					return
 				}
 				for _, s := range red {
-					if s.Obj && !(len(steps) == 0 && r == "oo") {
+					if s.Obj && !(len(steps) == 0 && hasOwnProps(r)) {
 						continue
 					}
 					rec3(append(steps, s))
